@@ -1,5 +1,5 @@
 // C15: DREAM sampling is memory-safe, stays in the domain and keeps consistent books.
-// args: chains dims burnup collect form(0 reg,1 log) update(0 none,1 uniform,2 gaussian,3 user) split(0 / c1: second run after the first c1 collected iterations)
+// args: chains dims burnup collect form(0 reg,1 log) update(0 none,1 uniform,2 gaussian,3 user) split(0 / c1: second run after the first c1 collected iterations) [reseed: 0 none, 1 setState(vector), 2 setState(function) between the two runs]
 #include "TasmanianDREAM.hpp"
 #include "fpsym.h"
 #include <map>
@@ -29,14 +29,21 @@ struct World {
 };
 
 int main(int argc, char **argv){
-  int C = atoi(argv[1]), D = atoi(argv[2]), burn = atoi(argv[3]), collect = atoi(argv[4]), form = atoi(argv[5]), update = atoi(argv[6]), split = atoi(argv[7]);
+  int C = atoi(argv[1]), D = atoi(argv[2]), burn = atoi(argv[3]), collect = atoi(argv[4]), form = atoi(argv[5]), update = atoi(argv[6]), split = atoi(argv[7]); int reseed = argc > 8 ? atoi(argv[8]) : 0;
   World w; w.C = C; w.D = D; w.form = form; w.update = update;
   std::vector<double> init(C * D); for (int i=0;i<C*D;i++) init[i] = fpsym_symbolic(-0.6 + 0.37 * i, 10 + i, -1.0, 1.0);
   TasmanianDREAM state(C, D); state.setState(init);
   // the initial state is inside the domain by assumption: its points are known to the world with that verdict; their pdf values
   // are requested by the sampler itself
   size_t h0 = state.getHistory().size();
-  if (split > 0){ w.run(burn, split, state); w.run(0, collect - split, state); }
+  if (split > 0){
+    w.run(burn, split, state);
+    if (reseed){ // the chains are moved by the user between two runs: the probability values of the old positions must not be reused
+      std::vector<double> ns(C * D); for (int i=0;i<C*D;i++) ns[i] = fpsym_symbolic(0.45 - 0.31 * i, 60 + i, -1.0, 1.0);
+      if (reseed == 1) state.setState(ns); else { int q = 0; state.setState([&](double *x)->void{ for (int d=0;d<D;d++) x[d] = ns[q * D + d]; q++; }); }
+      w.ev.push_back({4, 0.0, ns, false, {}});
+    }
+    w.run(0, collect - split, state); }
   else w.run(burn, collect, state);
   // ---------------- oracle: replay the documented Metropolis step over the logged callbacks
   std::vector<std::vector<double>> cur(C); std::vector<double> curp(C);
@@ -52,6 +59,15 @@ int main(int argc, char **argv){
   fpsym_check(phist.size() == (size_t) collect * C, "pdf history grew by exactly num_collect x chains values");
   size_t hpos = h0; size_t ppos = 0; bool parse_ok = true;
   for (int t = 0; t < total && parse_ok; t++){
+    if (p < ev.size() && ev[p].kind == 4){
+      // re-seeded state: the sampler has to evaluate the probability of the new positions before it continues
+      const std::vector<double> ns = ev[p].x; p++;
+      bool ok = p < ev.size() && ev[p].kind == 3 && (int) ev[p].vals.size() == C;
+      fpsym_check(ok, "after the state is replaced the probability values are evaluated again for all chains");
+      if (!ok){ parse_ok = false; break; }
+      for (int i=0;i<C;i++){ cur[i] = std::vector<double>(ns.begin() + i * D, ns.begin() + (i + 1) * D); curp[i] = ev[p].vals[i]; for (int d=0;d<D;d++) fpsym_ident(ev[p].x[i * D + d], ns[i * D + d], "pdf re-evaluated at the re-seeded state"); }
+      p++;
+    }
     std::vector<std::vector<double>> prop(C); std::vector<bool> valid(C);
     for (int i=0;i<C && parse_ok;i++){
       // chain i: two index draws, one differential weight, optional update draws, one domain test
